@@ -29,4 +29,4 @@ pub broadcast axiom fn ax_im_range_final<T>(v: Seq<T>, r: core::ops::Range<usize
             == v.subrange(0, r.start as int) + f + v.subrange(r.end as int, v.len() as int);
 } // mod ix
 #[allow(unused_imports)] use ix::*;
-broadcast use ix::ax_out_view_slice, ix::ax_im_full_cur, ix::ax_im_full_final, ix::ax_im_range_cur, ix::ax_im_range_final;
+broadcast use {ix::ax_out_view_slice, ix::ax_im_full_cur, ix::ax_im_full_final, ix::ax_im_range_cur, ix::ax_im_range_final};
